@@ -162,7 +162,7 @@ def parse_vspec(path, rel):
             elif d == '@loop':
                 flush()
                 a = arg.split()
-                if len(a) != 2 or a[1] not in ('invariant', 'begin', 'end', 'after'):
+                if len(a) != 2 or a[1] not in ('invariant', 'begin', 'end', 'after', 'before'):
                     raise ExtractError('%s:%d: @loop K invariant|begin|end|after' % (rel, ln))
                 section = ('loop', int(a[0]), a[1])
             elif d == '@body':
@@ -318,6 +318,18 @@ class Rewriter:
                 self.log.append(('R5', fid, mm.group(0)))
                 return 'usize_to_f64(%s)' % mm.group(1)
             text = re.sub(r'(\b[A-Za-z_]\w*\b|\([^()]*\))\s+as\s+f64\b', r5, text)
+        if part == 'body':
+            # R7a  `X.drain( A..B );` as a statement (iterator dropped at once) -> vec_remove_range(&mut X, A, B);
+            def r7(mm):
+                self.log.append(('R7', fid, mm.group(0)))
+                return 'vec_remove_range(&mut %s, %s, %s);' % (mm.group(1), mm.group(2), mm.group(3))
+            text = re.sub(r'(?m)(?<=[;{}\n])(\s*)([A-Za-z_][\w.]*)\.drain\(\s*([^;]+?)\s*\.\.\s*([^;.][^;]*?)\s*\)\s*;',
+                          lambda mm: mm.group(1) + r7_fmt(self, fid, mm), text)
+            # R7b  `for PAT in X.drain(..)` -> `for PAT in core::mem::take(X)` (X: &mut Vec)
+            def r7b(mm):
+                self.log.append(('R7', fid, mm.group(0)))
+                return '%s core::mem::take(%s)' % (mm.group(1), mm.group(2))
+            text = re.sub(r'(\bfor\s+\w+\s+in)\s+([A-Za-z_]\w*)\.drain\(\s*\.\.\s*\)', r7b, text)
         if spec is None:
             return text
         if part == 'body':
@@ -673,6 +685,8 @@ class Generator:
                 if not mm:
                     raise ExtractError('cannot find `in` of for loop %d in %s' % (k, fn.name))
                 add(mm.end(), 0, 'gen', ' __it%d:' % k)
+            if d.get('before'):
+                add(lp.kw_pos, 0, 'splice:loop%d-before' % k, d['before'])
             if d.get('invariant'):
                 add(lp.open, 0, 'splice:loop%d-invariant' % k, '\n' + d['invariant'])
             if d.get('begin'):
@@ -800,6 +814,11 @@ class Generator:
                     self.emit_fn(out, pseudo, header, ch, unit, vacuity, indent='    ')
                     del self.specs[(pseudo, header, ch.name)]
             out.gen('}\n\n', 'macro')
+
+
+def r7_fmt(rw, fid, mm):
+    rw.log.append(('R7', fid, mm.group(0).strip()))
+    return 'vec_remove_range(&mut %s, %s, %s);' % (mm.group(2), mm.group(3), mm.group(4))
 
 
 def last_src(last_new, offmap, body):
